@@ -195,7 +195,7 @@ func genLinesSmallKeys(r *Rand, n int) []byte {
 }
 
 func c05Stats(cases []string) map[string]int {
-	st := map[string]int{"renders.total": c05Renders, "trace.dense.cases": aggDenseCases, "trace.dense.ticks.total": aggDenseTicks}
+	st := map[string]int{"renders.total": c05Renders}
 	for _, c := range cases {
 		f := strings.Fields(c)
 		if f[0] == "atrace" {
